@@ -190,7 +190,13 @@ func C12(r *core.Run) int {
 						}
 					}
 				}
-				out, err := core.RunCmd(r.Scratch, time.Minute, nil, cli, p.CLIArgs()...)
+				// the processes also differ in what the output must not depend on: the
+				// local time zone (26 hours apart: always another local date), the locale
+				env := []string{"TZ=Etc/GMT-14", "LC_ALL=C", "LANG=C"}
+				if j.k%2 == 1 {
+					env = []string{"TZ=Etc/GMT+12", "LC_ALL=en_US.UTF-8", "LANG=de_DE.UTF-8"}
+				}
+				out, err := core.RunCmd(r.Scratch, time.Minute, env, cli, p.CLIArgs()...)
 				if err != nil {
 					r.Report(core.Violation{Case: p.Case.ID, Class: "nondeterministic-verdict", Message: "CLI failed where the in-process run succeeded: " + core.Trunc(out, 300), Spec: string(p.Case.SpecBytes()), Flags: p.Case.Flags})
 					continue
